@@ -88,8 +88,8 @@ theorem diff_dereg (w : World) (a s : Nat) : DiffOn (fun x => x = a ∨ x = s) w
     have : x ≠ a := fun h => hx (Or.inl h)
     simp [this]
 
-theorem diff_newSpace (w : World) (k : Nat) (cap : Option Nat) (pairs : List (Nat × Nat)) :
-    DiffOn (fun x => w.next ≤ x) w (newSpace w k cap pairs).1 := by
+theorem diff_newSpace (w : World) (k : Nat) (cap : Option Nat) (grid : Bool) (pairs : List (Nat × Nat)) :
+    DiffOn (fun x => w.next ≤ x) w (newSpace w k cap grid pairs).1 := by
   refine ⟨fun x hx => ?_, fun _ _ => rfl, fun x hx => ?_⟩
   · simp only [newSpace]
     have : ¬ (w.next + 1 ≤ x ∧ x < w.next + 1 + k) := by omega
@@ -107,7 +107,7 @@ theorem diff_copyWorld (w : World) (s : Nat) (sr : SpaceRec) : DiffOn (fun x => 
 /-- every operation changes at most the records it `writes` and fresh ones -/
 theorem diff_step (w : World) (op : Op) : DiffOn (fun x => x ∈ writes w op ∨ w.next ≤ x) w (step w op) := by
   cases op with
-  | newSpace k cap pairs => exact (diff_newSpace w k cap pairs).mono (fun x hx => Or.inr hx)
+  | newSpace k cap grid pairs => exact (diff_newSpace w k cap grid pairs).mono (fun x hx => Or.inr hx)
   | newAgent s =>
     simp only [step]
     cases hc : newAgent w s with
@@ -261,7 +261,7 @@ theorem WF.dereg {w : World} (hw : WF w) (a s : Nat) : WF (dereg w a s) := by
 
 theorem WF.step {w : World} (hw : WF w) (op : Op) : WF (step w op) := by
   cases op with
-  | newSpace k cap pairs =>
+  | newSpace k cap grid pairs =>
     apply hw.of_le (by simp [Mesa.CopyOcc.step, newSpace]; omega)
     intro i sr h
     simp only [Mesa.CopyOcc.step, newSpace] at h ⊢
